@@ -282,6 +282,32 @@ fn run_inner(ctx: &mut Ctx, _name: &str) {
             let big = i % 10 == 0;
             payloads.push((0..4).map(|_| { let d = ctx.rng.below(4) as u32; gen_json(&mut ctx.rng, d, big) }).collect());
         }
+        // a second pipeline whose outputs are COMPUTED by the evaluator from the converted values
+        let mut tpid = None;
+        for src in ["stream Out = E\n    .emit(a: f0 + 1, b: -f1, c: f2, d: f3)\n", "stream Out = E\n    .emit(a: f0 + 1, b: f1 * -1.0, c: f2, d: f3)\n"] {
+            let mut m = mgr.write().await;
+            if let Ok(p) = m.get_tenant_mut(&tid).unwrap().deploy_pipeline("T".into(), src.into()).await { tpid = Some(p); break; }
+        }
+        let tpid = match tpid { Some(p) => p, None => { eprintln!("generator error: transforming pipeline rejected"); std::process::exit(3) } };
+        let n_t = if ctx.thorough { 3000 } else { 300 };
+        for i in 0..n_t {
+            const NS: &[i128] = &[0, 1, -1, 41, -2, 9007199254740991, 9007199254740992, -9007199254740993, 4611686018427387904, -4611686018427387904,
+                9223372036854775806, 9223372036854775805, -9223372036854775808, -9223372036854775807];
+            let n = if ctx.rng.chance(1, 2) { *ctx.rng.pick(NS) } else { (ctx.rng.next() as i64 as i128 >> ctx.rng.below(63)).min(9223372036854775806) };
+            let x = gen_float(&mut ctx.rng);
+            let d2 = ctx.rng.below(3) as u32; let d3 = ctx.rng.below(4) as u32;
+            let j2 = if ctx.rng.chance(1, 2) { J::Str(gen_string(&mut ctx.rng)) } else { gen_json(&mut ctx.rng, d2, false) };
+            let j3 = gen_json(&mut ctx.rng, d3, i % 10 == 0);
+            let obj = J::Obj(vec![("f0".into(), J::Int(n)), ("f1".into(), J::Float(x)), ("f2".into(), j2), ("f3".into(), j3)]);
+            let single = format!("{{\"event_type\":\"E\",\"fields\":{}}}", obj.text());
+            let (st, body) = post(&routes, &format!("/api/v1/pipelines/{tpid}/events"), single).await;
+            ctx.count(&format!("tinject:{st}"));
+            ctx.case(&format!("tinject {}", obj.show()), &format!("{} {}", st, first_output_fields(&body, false)));
+            let batch = format!("{{\"events\":[{{\"event_type\":\"E\",\"fields\":{}}}]}}", obj.text());
+            let (st, body) = post(&routes, &format!("/api/v1/pipelines/{tpid}/events-batch"), batch).await;
+            ctx.count(&format!("tbatch:{st}"));
+            ctx.case(&format!("tbatch {}", obj.show()), &format!("{} {}", st, first_output_fields(&body, true)));
+        }
         for p in payloads {
             let obj = J::Obj(FIELDS.iter().zip(p.iter()).map(|(k, v)| (k.to_string(), v.clone())).collect());
             let single = format!("{{\"event_type\":\"E\",\"fields\":{}}}", obj.text());
